@@ -172,7 +172,11 @@ class BezierCurve(BaseCurve):
         if times == 0:
             return
         mattrans, _ = Operations.degree_decrease(degree, times)
-        self.ctrlpoints = tuple(np.dot(mattrans, points))
+        newpoints = list(np.dot(mattrans, points))
+        # The least squares fit moves the extremities up to sqrt(tolerance)
+        newpoints[0] = points[0]
+        newpoints[-1] = points[-1]
+        self.ctrlpoints = tuple(newpoints)
         return self
 
     def split(self, nodes: Tuple[float]) -> Tuple[BezierCurve]:
